@@ -43,7 +43,9 @@ KINDS = ["bad_dtype", "nonstr_name", "dup_names", "null_in_required", "surrogate
          "missing_column", "extra_column", "diff_scheme", "diff_partition", "unknown_codec", "unknown_codec_col",
          "read_unknown_column", "filter_unknown_column",
          # beyond the kinds the property lists, same principle: a refused in-place update of the key/value metadata
-         "kv_update_nontext"]
+         "kv_update_nontext",
+         # ... and a valid append that is interrupted from outside (KeyboardInterrupt arriving inside an I/O call)
+         "interrupted"]
 
 
 @st.composite
@@ -183,6 +185,14 @@ def prepare_op(case, df1, path, other):
         c = _pick(vcols, case["colpos"])
         kw["compression"] = {c["name"]: "NOPE", "_default": "SNAPPY"}
 
+    if kind == "interrupted":
+        if channel not in ("append", "handle_append"):
+            raise NotApplicable("append only")
+        if channel == "handle_append":
+            pf = fastparquet.ParquetFile(path)
+            return (lambda fs: pf.write_row_groups(df, row_group_offsets=kw.get("row_group_offsets"), open_with=fs.open_with,
+                                                   mkdirs=fs.mkdirs)), "interrupted_handle_append"
+        return (lambda fs: fastparquet.write(path, df, append=True, open_with=fs.open_with, mkdirs=fs.mkdirs, **kw)), "interrupted_append"
     if kind == "kv_update_nontext":
         from fastparquet import writer as fwriter
         target = path if scheme == "simple" else os.path.join(path, "_metadata")
@@ -256,14 +266,46 @@ def run_case(case):
             return discard("not applicable: %s" % e, labels)
         labels.append("how:" + how)
         fs = FaultFS()
+        if case["kind"] == "interrupted":
+            # dry run on a copy: which I/O calls does this (valid) append make?
+            import shutil
+            dry = os.path.join(d, "dry")
+            (shutil.copytree if os.path.isdir(path) else shutil.copy)(path, dry)
+            dcase = dict(case)
+            try:
+                dop, _ = prepare_op(dcase, df1, dry, other)
+                dfs = FaultFS()
+                dop(dfs)
+                dfs.close_all()
+            except Exception as e:
+                return discard("valid append raised in the dry run:" + exc_sig(e), labels)
+            evs = dfs.events
+            if scheme == "simple":
+                # while the new row groups are being written; (once the new footer is complete the append has happened)
+                ks = [i for i, ev in enumerate(evs, 1) if ev[0] == "write"][:-3]
+            else:
+                meta = [i for i, ev in enumerate(evs, 1) if ev[0] == "open_w" and ev[1].endswith("_metadata")]
+                ks = list(range(1, meta[0])) if meta else []
+            if not ks:
+                return discard("no interruptible call", labels)
+            k = ks[0] if case["colpos"] == "first" else ks[-1] if case["colpos"] == "last" else ks[len(ks) // 2]
+            labels.append("interrupt_at:%s" % evs[k - 1][0])
+            op, how = prepare_op(case, df1, path, other)
+            fs = FaultFS(fail_at=k, exc=KeyboardInterrupt)
         try:
             op(fs)
         except Exception as e:
+            raised = e
+        except KeyboardInterrupt as e:
+            if not fs.injected:
+                raise
             raised = e
         else:
             raised = None
         finally:
             fs.close_all()
+        if case["kind"] == "interrupted" and not fs.injected:
+            return discard("event sequence diverged from the dry run", labels)
         if raised is None and case["kind"] == "kv_update_nontext":
             return discard("not refused", labels)
         if raised is None:
